@@ -620,6 +620,15 @@ func runC17Live(cs CaseSpec) *CaseResult {
 		after := viewLive(l)
 		res.Evaluations++
 		if after.undetermined != before[l].undetermined || after.ownSeq != before[l].ownSeq || after.blocks != before[l].blocks {
+			if cs.Str("race", "") == "1" {
+				// under the race detector the routines that were in flight when the node
+				// announced the Suspended state finish an order of magnitude later than
+				// the moment the reference snapshot was taken: a timing-dependent answer
+				// of a race-instrumented case is inconclusive, never a verdict (DESIGN 2.6);
+				// the plain twin of this case and the babble-return cases decide
+				res.inconclusive(fmt.Sprintf("race build: suspended live node %s still changed after the reference snapshot (undetermined %d -> %d, own sequence %d -> %d)", l.Peer.Moniker, before[l].undetermined, after.undetermined, before[l].ownSeq, after.ownSeq))
+				return res
+			}
 			res.violate("C17", "C17:live-suspended-node-changed",
 				fmt.Sprintf("suspended live node %s changed after further submissions: undetermined %d -> %d, own sequence %d -> %d, blocks %d -> %d", l.Peer.Moniker,
 					before[l].undetermined, after.undetermined, before[l].ownSeq, after.ownSeq, before[l].blocks, after.blocks), map[string]interface{}{"mode": mode})
